@@ -20,7 +20,8 @@
    part of its "traced run" not yet executed.  A traced run is a forest of brackets
      AStart n body     op_wrapper::start of operation n around the start of the wrapped operation
      AComplete n body  rcvr_wrapper::set_value/error/done of operation n around the downstream receiver
-     AWait n body      sync_wait's initial_stack_root (n = the pseudo operation owning the initial frame)
+     AWait n m body    sync_wait's initial_stack_root (n = the pseudo operation owning the initial frame,
+                     m = the connected operation whose completion lets ctx.run() return)
      ALoop body        a bare ScopedAsyncStackRoot of an event loop
      AObs tag          an observation point (no effect)
    The op tree ([par n] = the operation whose receiver operation n completes into) is a parameter.
@@ -46,7 +47,7 @@ Inductive kind := KS | KC | KW | KL.
 Inductive act :=
 | AStart (n : nat) (body : list act)
 | AComplete (n : nat) (body : list act)
-| AWait (n : nat) (body : list act)
+| AWait (n m : nat) (body : list act)
 | ALoop (body : list act)
 | AObs (tag : nat).
 
@@ -65,6 +66,8 @@ Record st := {
   cur : nat -> option nat;             (* per thread: currentThreadAsyncStackRoot *)
   begun : nat -> option nat;           (* contract bookkeeping: the root pushed by op n's start bracket *)
   started : nat -> bool;               (* op n's own frame has been activated *)
+  completed : nat -> bool;             (* op n's completion bracket has activated its copy *)
+  waits : nat -> nat;                  (* sync_wait pseudo op -> the operation whose completion ends ctx.run *)
   failed : bool;
   conts : nat -> list item;
   nthreads : nat;
@@ -98,35 +101,45 @@ Definition oeqb (a b : option nat) : bool :=
 (* ---- setters ---------------------------------------------------------------------------- *)
 Definition set_conts (s : st) (t : nat) (k : list item) : st :=
   {| frames := frames s; nframes := nframes s; roots := roots s; nroots := nroots s; cur := cur s;
-     begun := begun s; started := started s; failed := failed s; conts := upd (conts s) t k;
+     begun := begun s; started := started s; completed := completed s; waits := waits s; failed := failed s; conts := upd (conts s) t k;
      nthreads := nthreads s; par := par s; nops := nops s |}.
 Definition set_frame (s : st) (f : nat) (v : frame) : st :=
   {| frames := upd (frames s) f v; nframes := nframes s; roots := roots s; nroots := nroots s; cur := cur s;
-     begun := begun s; started := started s; failed := failed s; conts := conts s;
+     begun := begun s; started := started s; completed := completed s; waits := waits s; failed := failed s; conts := conts s;
      nthreads := nthreads s; par := par s; nops := nops s |}.
 Definition set_root (s : st) (r : nat) (v : root) : st :=
   {| frames := frames s; nframes := nframes s; roots := upd (roots s) r v; nroots := nroots s; cur := cur s;
-     begun := begun s; started := started s; failed := failed s; conts := conts s;
+     begun := begun s; started := started s; completed := completed s; waits := waits s; failed := failed s; conts := conts s;
      nthreads := nthreads s; par := par s; nops := nops s |}.
 Definition set_cur (s : st) (t : nat) (c : option nat) : st :=
   {| frames := frames s; nframes := nframes s; roots := roots s; nroots := nroots s; cur := upd (cur s) t c;
-     begun := begun s; started := started s; failed := failed s; conts := conts s;
+     begun := begun s; started := started s; completed := completed s; waits := waits s; failed := failed s; conts := conts s;
      nthreads := nthreads s; par := par s; nops := nops s |}.
 Definition set_begun (s : st) (n : nat) (r : nat) : st :=
   {| frames := frames s; nframes := nframes s; roots := roots s; nroots := nroots s; cur := cur s;
-     begun := upd (begun s) n (Some r); started := started s; failed := failed s; conts := conts s;
+     begun := upd (begun s) n (Some r); started := started s; completed := completed s; waits := waits s; failed := failed s; conts := conts s;
      nthreads := nthreads s; par := par s; nops := nops s |}.
 Definition set_started (s : st) (n : nat) : st :=
   {| frames := frames s; nframes := nframes s; roots := roots s; nroots := nroots s; cur := cur s;
-     begun := begun s; started := upd (started s) n true; failed := failed s; conts := conts s;
+     begun := begun s; started := upd (started s) n true; completed := completed s; waits := waits s; failed := failed s; conts := conts s;
+     nthreads := nthreads s; par := par s; nops := nops s |}.
+Definition set_completed (s : st) (n : nat) : st :=
+  {| frames := frames s; nframes := nframes s; roots := roots s; nroots := nroots s; cur := cur s;
+     begun := begun s; started := started s; completed := upd (completed s) n true; waits := waits s;
+     failed := failed s; conts := conts s;
+     nthreads := nthreads s; par := par s; nops := nops s |}.
+Definition set_waits (s : st) (n m : nat) : st :=
+  {| frames := frames s; nframes := nframes s; roots := roots s; nroots := nroots s; cur := cur s;
+     begun := begun s; started := started s; completed := completed s; waits := upd (waits s) n m;
+     failed := failed s; conts := conts s;
      nthreads := nthreads s; par := par s; nops := nops s |}.
 Definition set_failed (s : st) : st :=
   {| frames := frames s; nframes := nframes s; roots := roots s; nroots := nroots s; cur := cur s;
-     begun := begun s; started := started s; failed := true; conts := conts s;
+     begun := begun s; started := started s; completed := completed s; waits := waits s; failed := true; conts := conts s;
      nthreads := nthreads s; par := par s; nops := nops s |}.
 Definition alloc_frame (s : st) : st :=
   {| frames := upd (frames s) (nframes s) frame0; nframes := S (nframes s); roots := roots s; nroots := nroots s;
-     cur := cur s; begun := begun s; started := started s; failed := failed s; conts := conts s;
+     cur := cur s; begun := begun s; started := started s; completed := completed s; waits := waits s; failed := failed s; conts := conts s;
      nthreads := nthreads s; par := par s; nops := nops s |}.
 
 (* ---- the primitives --------------------------------------------------------------------- *)
@@ -137,7 +150,7 @@ Definition prim_root_push (t : nat) (s : st) : st :=
   let s1 := {| frames := frames s; nframes := nframes s;
                roots := upd (roots s) r {| r_top := None; r_next := cur s t; r_thr := t; r_live := true |};
                nroots := S r; cur := upd (cur s) t (Some r);
-               begun := begun s; started := started s; failed := failed s; conts := conts s;
+               begun := begun s; started := started s; completed := completed s; waits := waits s; failed := failed s; conts := conts s;
                nthreads := nthreads s; par := par s; nops := nops s |} in
   s1.
 
@@ -215,14 +228,15 @@ Definition step (t : nat) (s : st) : option (st * list ev) :=
           Some (set_conts s1 t (Opening KS r n n false body :: k), [ERootPush r (cur s t)])
         else None
       end
-  | Do (AWait n body) :: k =>
-      (* initial_stack_root: members frame, root; the constructor body activates the frame *)
+  | Do (AWait n m body) :: k =>
+      (* initial_stack_root: members frame, root; the constructor body activates the frame.
+         m = the operation sync_wait connects: ctx.run returns once its receiver was signalled *)
       match begun s n with
       | Some _ => None
       | None =>
         if Nat.ltb n (nops s) && oeqb (par s n) None then
           let r := nroots s in
-          let s1 := set_begun (prim_root_push t s) n r in
+          let s1 := set_waits (set_begun (prim_root_push t s) n r) n m in
           Some (set_conts s1 t (Opening KW r n n true body :: k), [ERootPush r (cur s t)])
         else None
       end
@@ -257,9 +271,18 @@ Definition step (t : nat) (s : st) : option (st * list ev) :=
   | Opening kd r f n true body :: k =>
       if activate_ok t r f s then
         let s1 := prim_activate r f s in
-        let s2 := if Nat.ltb f (nops s) then set_started s1 f else s1 in
+        let s2 := if Nat.ltb f (nops s) then set_started s1 f else set_completed s1 n in
         Some (set_conts s2 t (map Do body ++ Closing kd r f false :: k), [EActivate r f])
       else abort s t 1
+  | Closing KW r f false :: k =>
+      (* sync_wait: ctx.run() blocks until the receiver was signalled; then ~initial_stack_root *)
+      if negb (completed s (waits s f)) then None else
+      if deactivate_ok t f s then
+        match f_root (frames s f) with
+        | Some r' => Some (set_conts (prim_deactivate f s) t (Closing KW r f true :: k), [EDeactivate r' f])
+        | None => abort s t 2
+        end
+      else abort s t 2
   | Closing kd r f false :: k =>
       if closing_kind_strict kd then
         if deactivate_ok t f s then
@@ -283,7 +306,7 @@ Definition step (t : nat) (s : st) : option (st * list ev) :=
 Definition init (pars : list (option nat)) (progs : list (list act)) : st :=
   {| frames := fun _ => frame0; nframes := length pars;
      roots := fun _ => root0; nroots := 0;
-     cur := fun _ => None; begun := fun _ => None; started := fun _ => false; failed := false;
+     cur := fun _ => None; begun := fun _ => None; started := fun _ => false; completed := fun _ => false; waits := fun _ => 0; failed := false;
      conts := fun t => map Do (nth t progs []);
      nthreads := length progs;
      par := fun n => nth n pars None; nops := length pars |}.
@@ -449,7 +472,7 @@ Fixpoint gscript (e : aexp) (base : nat) (p : pst) (sc : list (nat * nat)) (prog
 Definition gen (e : aexp) (wait : bool) (nthr : nat) (sc : list (nat * nat)) : list (option nat) * list (list act) :=
   if wait then
     let '(xs, p, _) := gstart e 1 [AObs 1000] in
-    (None :: pars_of e 1 (Some 0), gscript e 1 p sc (add_to (repeat [] nthr) 0 [AWait 0 xs]))
+    (None :: pars_of e 1 (Some 0), gscript e 1 p sc (add_to (repeat [] nthr) 0 [AWait 0 1 xs]))
   else
     let '(xs, p, _) := gstart e 0 [AObs 1000] in
     (pars_of e 0 None, gscript e 0 p sc (add_to (repeat [] nthr) 0 xs)).
